@@ -899,7 +899,20 @@ func (t *Thread) convert(v Value, from, to types.Type) Value {
 				}
 				return out
 			}
-			unsupportedf("string([]rune)")
+			// string([]rune): constant runes are encoded as the runtime does (invalid rune -> U+FFFD)
+			var buf []byte
+			for k := 0; k < x.Len; k++ {
+				r, ok := x.Arr.Elem(x.Off + k).V.(*Term)
+				if !ok || !r.IsConst() {
+					unsupportedf("string([]rune) of symbolic runes")
+				}
+				buf = utf8.AppendRune(buf, rune(int32(uint32(r.BV))))
+			}
+			out := &StrVal{B: make([]*Term, len(buf))}
+			for k, b := range buf {
+				out.B[k] = MkBV(uint64(b), 8)
+			}
+			return out
 		}
 		if _, ok := tu.(*types.Slice); ok {
 			return x
